@@ -525,7 +525,7 @@ func c15(c *core.Ctx, r *core.Report) {
 				lf := an.LiteralFields(lit)
 				if v, ok := lf["Duration"]; ok {
 					d := an.D().Of(v)
-					r.Check(strings.HasSuffix(d, "#0.stagesTotalDuration"), "file.Trigger.Duration", an.Pos(c, ret), "Trigger.Duration ← "+shortPath(d), "the file trigger's Duration is "+shortPath(d)+", not the plan's total duration")
+					r.Check(strings.HasSuffix(d, "#0.stagesTotalDuration") || fromPlanField(v, "stagesTotalDuration"), "file.Trigger.Duration", an.Pos(c, ret), "Trigger.Duration ← "+shortPath(d), "the file trigger's Duration is "+shortPath(d)+", not the plan's total duration")
 				} else {
 					r.Violation("file.Trigger.Duration", an.Pos(c, ret), "the file trigger does not report its total duration")
 				}
@@ -539,7 +539,7 @@ func c15(c *core.Ctx, r *core.Report) {
 						d := an.D().Of(v)
 						want := name
 						alt := strings.ToLower(name[:1]) + name[1:]
-						r.Check(strings.HasSuffix(d, "#0."+want) || strings.HasSuffix(d, "#0."+alt), "file.Options."+name, an.Pos(c, ret), name+" ← "+shortPath(d), "api.Options."+name+" is fed from "+shortPath(d)+", expected RunnableStages."+want)
+						r.Check(strings.HasSuffix(d, "#0."+want) || strings.HasSuffix(d, "#0."+alt) || fromPlanField(v, want) || fromPlanField(v, alt), "file.Options."+name, an.Pos(c, ret), name+" ← "+shortPath(d), "api.Options."+name+" is fed from "+shortPath(d)+", expected RunnableStages."+want)
 					}
 				}
 			}
@@ -707,4 +707,11 @@ func returnAfterRecv(fn *ssa.Function, ret *ssa.Return, isDone func(ssa.Value) b
 		}
 	}
 	return waited
+}
+
+// fromPlanField: v is a load of the named field of a RunnableStages value (the plan ParseConfigFile built, however
+// it reached this function: a call result, a parameter or a method receiver).
+func fromPlanField(v ssa.Value, name string) bool {
+	fld, owner := an.TerminalField(v)
+	return fld != nil && fld.Name() == name && an.IsNamed(owner, filePkg, "RunnableStages")
 }
